@@ -140,7 +140,7 @@ Definition step (txt : str) (st : lst) (cd : option str) (cdv : option (list str
   | SBlank => RetTok TBlank (tl txt) SRestOfLine
   | SComment l =>
       match txt with
-      | [] => Cont txt SEOF cd cdv
+      | [] => if l then RetErr EUnclosedList else Cont txt SEOF cd cdv   (* end of input inside ( ) *)
       | c :: r => if is_nl c then Cont txt (if l then SList else SEOL) cd cdv
                   else Cont r (SComment l) cd cdv
       end
@@ -201,10 +201,11 @@ Definition step (txt : str) (st : lst) (cd : option str) (cdv : option (list str
       end
   | SCharData l =>
       match txt with
-      | [] => match cd with
-              | Some s => RetTok (TChar s) txt SEOF      (* in a list: the list is dropped *)
-              | None => RetErr EIllegalState
-              end
+      | [] => if l then RetErr EUnclosedList                (* end of input inside ( ) *)
+              else match cd with
+                   | Some s => RetTok (TChar s) txt SEOF
+                   | None => RetErr EIllegalState
+                   end
       | c :: r =>
         if (c =? 41) && negb l then RetErr EIllegalChar
         else if is_ws c || (c =? 41) || (c =? 59) then
@@ -694,7 +695,7 @@ Definition ptoken (c : ctx) (st : pstate) (t : token) : R (ctx * pstate) :=
       end
   | POrigin =>
       match t with
-      | TChar s => do n <- name_parse s None ;; ROk (set_origin c (Some n), PStart)
+      | TChar s => do n <- name_parse s (c_origin c) ;; ROk (set_origin c (Some n), PStart)
       | _ => perr
       end
   | PInclude p =>
@@ -1068,8 +1069,8 @@ Inductive TtlClassToks (ps : pstate_) (t k : N) : list token -> bool -> Prop :=
 Inductive LineToks : pstate_ -> list token -> option srec -> pstate_ -> Prop :=
 | lt_blank ps : LineToks ps [TEOL] None ps
 | lt_blank2 ps : LineToks ps [TBlank; TEOL] None ps
-| lt_origin ps n : name_ok n = true ->
-    LineToks ps [TOrigin; TChar (print_abs n); TEOL] None
+| lt_origin ps n t : name_ok n = true -> NameText (p_origin ps) n t ->
+    LineToks ps [TOrigin; TChar t; TEOL] None
              (MkPs n (p_prev ps) (p_dttl ps) (p_last ps) (p_class ps))
 | lt_ttl ps t tt : t <= u32max -> TtlText t tt ->
     LineToks ps [TTtl; TChar tt; TEOL] None
